@@ -3,7 +3,7 @@
 pub uninterp spec fn is_mono(e: Expr, s: Map<Seq<char>, Ty>, r: MonoExpr) -> bool;
 #[verifier::external_body]
 pub fn mono_expr(ctx: &mut Ctx, e: &Expr, s: &Subst) -> (r: MonoExpr)
-    ensures is_mono(*e, s@, r),
+    ensures is_mono(*e, s@, r), final(ctx).out == old(ctx).out,      // ASSUMED frame: translation only adds to the instance table / work list (Ctx::ensure_instance, U-MINST)
 { unimplemented!() }
 // names::trait_impl_fn_name (U-IMPLNAME proves what it is made of): here only WHICH (trait, type, method) it is asked for matters
 pub uninterp spec fn impl_fn_name(tr: TastIdent, ty: Ty, method: Seq<char>) -> Seq<char>;
